@@ -114,6 +114,7 @@ Total(pm) == FoldSet(LAMBDA k, acc : acc + pm[k], 0, AllKeys)
 
 C12_Updates(g, pre, kind, tx, r, post) ==
     IF kind # "end" THEN r.updates = <<>> /\ post.vals = pre.vals
+    ELSE IF pre.dev THEN r.updates = <<>>        \* dev mode: validator updates are withheld on purpose
     ELSE
       LET tm2 == ApplyUpdates(g.tm, r.updates) IN
       /\ \A i, j \in DOMAIN r.updates : i < j => KeyPos(r.updates[i].key) < KeyPos(r.updates[j].key)
